@@ -14,10 +14,19 @@ META = {
  "C16": ("re-initialisation of the FD wrapper keeps the old cached time (`__jac_time = 0.0` slipped inside the 'order is None' guard)", "FD jac(a, y) with a != 0, then unhook_jacobian_call() with nothing hooked, then jac at the same a: Jacobian of rhs(0.0, .) returned", ["C16"], "C16.fd_at_requested_time"),
  "C15": ("newtontrustregion measures the step size only when a trial step is accepted", "first Newton iteration rejects all three trial steps (poor start, near-singular Jacobian, rootless system): dxn stays 0 and the unchanged initial guess is returned with success=True; inherited by nonlinear_roots on both dispatch paths after MINPACK / hybrj fail", ["C15"], "C15.success_means_solution"),
  "C04": ("non-adaptive override `timestep, redo_step = self.dTime, False` removed from inside the retry loop (looks like dead code)", "implicit non-adaptive method AND a stage-solve failure at the requested dt whose 0.8*dt retry converges: the controller's growth proposal (zero error estimate) is returned, later steps are ~2x the requested dt", ["C04"], "C04.never_longer"),
+ "C20b": ("dt re-orientation hoisted out of the loop and attached to `self.dt = new_dt`; callbacks run afterwards and assign dt through the setter, which orients along (t0, tf)", "integrate(t) heading against the system's (t0, tf) span AND a callback assigning dt on a non-final step: the next step is taken away from the target", ["C20"], "C20.cb_dt_used"),
+ "C13b": ("integrate() re-records __dt0 (the step restored by reset) on the first call of a run, after the 'dt larger than the span' shortening", "first integrate call of a run targets a time closer than dt (short first leg, or a terminal event inside the first step), then reset(), then a longer run: reset restores the shortened step", ["C13"], "C13.reset_equals_fresh"),
+ "C06b": ("search_bisection_vec: while-loop replaced by a fixed number of halvings floor(log2(n-1))", "ARRAY queries of the dense output when the number of pieces n has n-1 not a power of two, query strictly inside an 'orphaned' step: answered by the next step's interpolant; scalar queries unaffected", ["C06"], "C06.array_query"),
+ "C02b": ("inside the retry loop the fixed-step override now follows the Newton-failure check and clears redo_step", "implicit non-adaptive method whose stage solve fails on the first attempt AND again on the first retry: unconverged stage values handed back as an accepted step", ["C02"], "C02.accepted_unconverged"),
+ "C12b": ("clean-up guard around handle_events narrowed from `except BaseException` to `except Exception`", "KeyboardInterrupt raised inside an EVENT function with dense_output=True: the un-recorded step's interpolant stays, duplicate after resume", ["C12"], "C12.coverage"),
+ "C03b": ("`else: end_int = True` after a clamped final step", "adaptive/implicit method whose clamped last step is rejected or shortened (rhs gets harder just before the target): loop exits short of the target with status 'completed successfully'", ["C03"], "C03.ends_at_target"),
+ "C09b": ("handle_events no longer truncates `roots` at the first terminal event (evs/active_events still are)", "the step in which the terminal event fires contains a further event root after it: roll-back targets the last root of the step; events list still right", ["C09"], "C09.stops_at_event_time"),
+ "C05b": ("solver_dict cleaned in place: `system_scaling` survives across steps and is updated as a 0.8/0.2 moving average", "solution shrinking faster than 0.8 per accepted step with rtol*|y| dominating atol (or an oversized rejected first step contaminating the scale): tolerance scale lags, error 1e2..1e4 x the bound, strongest for the high-order pairs", ["C05"], "C05.global_error_local"),
  "C05": ("retry loop guarded by signed comparison `timestep < current_timestep`", "adaptive RK integrating backward with a rejected step (initial dt comparable to the span): rejected step recorded silently, no retry, no error", ["C05"], "C05.global_error"),
 }
 for pid in sys.argv[1:]:
     what, needs, checks, oracle = META[pid]
+    prop_id = pid[:3]
     d = '/verif/seeded/%s-agent' % pid
     os.makedirs(d, exist_ok=True)
     shutil.copy('/tmp/seed_%s.diff' % pid, d + '/patch.diff')
@@ -28,10 +37,10 @@ for pid in sys.argv[1:]:
     without_log = open('/tmp/seed_%s_without.log' % pid).read().strip().splitlines()[-1][:300]
     chk = open('/tmp/seedchk_%s.log' % pid).read()
     viol = [l for l in chk.splitlines() if l.startswith('VIOLATION') or l.startswith('  oracle=')][:2]
-    meta = {"id": "%s-agent" % pid, "property": pid, "author": "independent sub-agent given only the property text and a scratch worktree",
+    meta = {"id": "%s-agent" % pid, "property": prop_id, "author": "independent sub-agent given only the property text and a scratch worktree",
             "change": what, "needs_to_manifest": needs, "checks": checks,
             "confirmed_by_me": {"suite_with_change": "1878 passed (PYTHONPATH=<worktree> pytest -q -p no:cacheprovider --timeout=900 -x -n 6)",
                                 "demo_with_change": "exit 1: " + with_log, "demo_without_change": "exit 0: " + without_log},
-            "my_check": {"command": "DSIM_REPO=<tree with patch> ./check %s" % pid, "result": "exit 1" if viol else "exit 0 (MISSED)", "first_violation": viol, "expected_oracle": oracle}}
+            "my_check": {"command": "DSIM_REPO=<tree with patch> ./check %s" % prop_id, "result": "exit 1" if viol else "exit 0 (MISSED)", "first_violation": viol, "expected_oracle": oracle}}
     json.dump(meta, open(d + '/meta.json', 'w'), indent=1)
     print(pid, meta["my_check"]["result"])
